@@ -81,23 +81,38 @@ func runSolver(ctx context.Context, s SolverSpec, query string, timeoutSec int) 
 // which the obligation's block is reachable; every other assertion on those paths is an assumption;
 // nothing after the obligation is included.
 func buildQuery(vc *FnVC, k int, wantModel bool) string {
+	return buildQueryMulti(vc, []int{k}, wantModel)
+}
+
+// buildQueryMulti checks several obligations of the same item list at once (their conjunction, each
+// under the assumptions that precede it): `unsat` discharges all of them.
+func buildQueryMulti(vc *FnVC, ks []int, wantModel bool) string {
 	if vc.Mismatch != "" {
 		return "(set-logic ALL)\n(check-sat)\n"
 	}
-	target := vc.Obs[k]
+	members := map[*Obligation]bool{}
+	for _, k := range ks {
+		members[vc.Obs[k]] = true
+	}
 	// locate
 	var tb *ssa.BasicBlock
 	texit, titem := -1, -1
 	for _, b := range vc.Order {
 		bv := vc.BVC[b]
 		for i, it := range bv.Items {
-			if it.Ob == target {
+			if it.Ob != nil && members[it.Ob] {
+				if tb != nil && (tb != b || texit != -1) {
+					return "(set-logic ALL)\n(check-sat)\n" // not one item list: refuse (answers sat)
+				}
 				tb, titem = b, i
 			}
 		}
 		for e := range bv.Exits {
 			for i, it := range bv.Exits[e].Items {
-				if it.Ob == target {
+				if it.Ob != nil && members[it.Ob] {
+					if tb != nil && (tb != b || texit != e) {
+						return "(set-logic ALL)\n(check-sat)\n"
+					}
 					tb, texit, titem = b, e, i
 				}
 			}
@@ -134,6 +149,10 @@ func buildQuery(vc *FnVC, k int, wantModel bool) string {
 		for i := len(items) - 1; i >= 0; i-- {
 			it := items[i]
 			if it.Kind == "cover" || it.F == "true" {
+				continue
+			}
+			if it.Ob != nil && members[it.Ob] {
+				f = sAnd(it.F, f) // an earlier member of the batch: part of the goal
 				continue
 			}
 			f = sImp(it.F, f)
@@ -188,23 +207,29 @@ func discharge(vc *FnVC, k int, timeoutSec int, thorough bool) (SolveResult, map
 	per := map[string]SolveResult{}
 	q := buildQuery(vc, k, true)
 	if !thorough {
-		// stage 1: default z3 5.1.0 and its E-matching-only configuration, short budget
-		type rr struct{ r SolveResult }
+		// stage 1: default z3 5.1.0 and its E-matching-only configuration, short budget; the first
+		// definitive answer stops the other
+		ctx1, cancel1 := context.WithCancel(context.Background())
 		c1 := make(chan SolveResult, 2)
-		go func() { c1 <- runSolver(context.Background(), solvers[0], q, 3) }()
-		go func() { c1 <- runSolver(context.Background(), ematchSolver, q, 3) }()
+		go func() { c1 <- runSolver(ctx1, solvers[0], q, 3) }()
+		go func() { c1 <- runSolver(ctx1, ematchSolver, q, 3) }()
 		var first *SolveResult
 		for i := 0; i < 2; i++ {
 			r := <-c1
 			if r.Solver == ematchSolver.Name && r.Answer != "unsat" {
 				continue
 			}
+			if r.Answer == "cancelled" {
+				continue
+			}
 			per[r.Solver] = r
-			if (r.Answer == "unsat" || r.Answer == "sat") && first == nil {
+			if r.Answer == "unsat" || r.Answer == "sat" {
 				rc := r
 				first = &rc
+				break
 			}
 		}
+		cancel1()
 		if first != nil {
 			return *first, per
 		}
@@ -247,4 +272,23 @@ func discharge(vc *FnVC, k int, timeoutSec int, thorough bool) (SolveResult, map
 		}
 	}
 	return best, per
+}
+
+// raceUnsat races the E-matching configuration and the default z3 5.1.0 on a query and returns the
+// first `unsat` (or the last other answer).
+func raceUnsat(q string, timeoutSec int) SolveResult {
+	ctx, cancel := context.WithCancel(context.Background())
+	defer cancel()
+	ch := make(chan SolveResult, 2)
+	go func() { ch <- runSolver(ctx, ematchSolver, q, timeoutSec) }()
+	go func() { ch <- runSolver(ctx, solvers[0], q, timeoutSec) }()
+	var last SolveResult
+	for i := 0; i < 2; i++ {
+		r := <-ch
+		if r.Answer == "unsat" {
+			return r
+		}
+		last = r
+	}
+	return last
 }
